@@ -1,6 +1,7 @@
 package verifsim
 
 import (
+	"bytes"
 	"fmt"
 	"math/big"
 	"strings"
@@ -83,13 +84,16 @@ func runC08(h *Harness) {
 		h.Violation("C08.setup", "first-load-denied", "fault-free first load: strict handshake for an unlisted certificate was denied: %v", hs.Err)
 		return
 	}
+	h.Quiesce() // the updater's start-up run must be over: each round has exactly one refresh in flight
 	inForce := 0
 	if p := loc.Pattern(n); p != "v1" {
 		h.Violation("C08.b-pattern", "after-first-load", "after the first load the probe pattern is %s, expected v1", p)
 		return
 	}
 	var history []string
+	stepFaultFired := false
 	for r := 0; r < rounds; r++ {
+		stepFaultFired = false
 		outcome := "success"
 		if faulty {
 			outcome = c08Outcomes[tp.Int(len(c08Outcomes))]
@@ -135,21 +139,47 @@ func runC08(h *Harness) {
 			}
 			target = next // the fault may or may not hit a step that matters
 		case "stfault":
+			target = next
 			if backend == "disk" {
+				// a write error of the staging store at a chosen step: either the k-th storage operation of the refresh,
+				// or the write issued by a particular store method (the property's "staging-store create/insert error at step k")
+				step := Pick(tp, "op-k", "UpdateSignatureCertificate", "InsertRevokedCert", "UpdateExtendedMetaInfo", "StartUpdateCrl", "UpdateCRLLocations")
 				base := int(h.Disk.StOps())
 				k := 1 + tp.Int(6+extra)
+				nth := 1 + tp.Int(3)
+				seen := 0
+				stepFaultFired = false
 				h.Disk.StFault = func(nn int, op, file string, size int) (error, int) {
-					if nn-base == k && (op == "write" || op == "create" || op == "sync") {
-						return ErrIO, 0
+					if op != "write" && op != "create" && op != "sync" {
+						return nil, 0
+					}
+					if step == "op-k" {
+						if nn-base == k {
+							return ErrIO, 0
+						}
+						return nil, 0
+					}
+					if op == "write" && StackHas("LevelDbStore)."+step) && StackHas("updateCrlEntry") {
+						seen++
+						if seen == nth || step != "InsertRevokedCert" {
+							stepFaultFired = true
+							return ErrIO, 0
+						}
 					}
 					return nil, 0
 				}
+				sc["stfault_step"] = step
 			}
-			target = next
 		default:
 			loc.State = outcome
 			if outcome == oTrunc || outcome == oReset {
-				loc.CutAt = 1 + tp.Int(len(loc.Versions[next].Bytes)-1)
+				b := loc.Versions[next].Bytes
+				loc.CutAt = 1 + tp.Int(len(b)-1)
+				// a PEM document cut inside its END line still carries the complete DER content: the validator may
+				// accept it (only a clean EOF; a reset makes the download fail)
+				if i := bytes.Index(b, []byte("-----END")); i >= 0 && loc.CutAt >= i && outcome == oTrunc {
+					target = next
+				}
 			}
 		}
 		history = append(history, outcome)
@@ -259,6 +289,11 @@ func runC08(h *Harness) {
 			h.Violation("C08.a-linearizable", "nonatomic", "verdicts of round %d (%s, in force v%d, delivered v%d acceptable=%v) admit no atomic explanation: %s", r+1, outcome, inForce+1, next+1, target >= 0, c08Describe(ops))
 		case porcupine.Unknown:
 			h.Probe("porcupine-unknown")
+		}
+		if stepFaultFired {
+			// a store method of the staging store returned an error: this refresh failed while staging
+			target = -1
+			h.Probe("staging-step-fault-fired")
 		}
 		// (b)/(c) pattern at the quiescent point
 		p := loc.Pattern(n)
